@@ -721,6 +721,21 @@ Proof.
   - split; auto. apply good_refl. auto.
 Qed.
 
+(* an array nobody refers to (the local slice of an aborted List.Eval) *)
+Lemma garbage_array_good : forall h x, inv h ->
+  good h (mkH (h_arrs h ++ [x]) (h_objs h)) /\ nobjs (mkH (h_arrs h ++ [x]) (h_objs h)) = nobjs h.
+Proof.
+  intros h x Hinv. pose proof Hinv as [Hok Hnc]. split; [|reflexivity].
+  split; [|split]; [| cbn; unfold nobjs; cbn; lia |].
+  - split.
+    + intros i ob Hg. eapply obj_ok_arrs; [|apply (Hok _ _ Hg)]. intros. apply slice_ok_snoc. auto.
+    + intros i j obi obj Hij Hgi Hgj. apply (Hnc i j obi obj Hij Hgi Hgj).
+  - apply frame_gen; [unfold nobjs; cbn; lia|]. intros m ob Hg. left. split.
+    + cbn. f_equal. apply get_obj_nth. auto.
+    + intros a off k Hi. destruct (iter_slice_inv _ _ _ _ _ _ Hinv Hg Hi) as (_ & -> & -> & -> & [Hs1 Hs2]).
+      cbn. apply rd_snoc. lia.
+Qed.
+
 Theorem step_refines_lemma : forall h o, inv h -> good h (step h o) /\ abs (step h o) = pstep (abs h) o.
 Proof.
   intros h o Hinv. destruct o; cbn [step pstep]; rewrite ?ltb_nobjs.
@@ -774,6 +789,13 @@ Proof.
     + apply Nat.ltb_ge in Ha. rewrite (Hout Ha). reflexivity.
   - (* OGuard *)
     apply (lazy_step h (PGuard v a) (a <? nobjs h) Hinv). intros H. apply Nat.ltb_lt in H. exact H.
+  - (* OStage *)
+    apply (lazy_step h (PStage st a b) ((a <? nobjs h) && (b <? nobjs h)) Hinv).
+    intros H. apply andb_prop in H. destruct H as [H1 H2]. apply Nat.ltb_lt in H1, H2. cbn. auto.
+  - (* OEvalFail *)
+    destruct (a <? nobjs h); [|split; [apply good_refl; auto|reflexivity]].
+    destruct (garbage_array_good h (firstn k (icontent h a)) Hinv) as [Hg Hn]. split; auto.
+    apply abs_same; auto.
 Qed.
 
 (* ------------------------------------------------------------------ histories *)
@@ -875,4 +897,28 @@ Proof.
     assert (Habs : abs (eval_obj h a c) = abs h) by (apply abs_same; auto).
     split; auto. split; [lia|]. split; [|congruence].
     intros x. rewrite Hc2. change (nth x (abs (eval_obj h a c)) [] = nth x (abs h) []). rewrite Habs. reflexivity.
+Qed.
+
+(* ------------------------------------------------------------------ a materialisation that fails half way *)
+
+(* List.Eval aborted by an error after k elements (any k, any object, lazy or not): no object is touched -
+   in particular the list is still lazy with empty items - nobody's content changes, and the next, successful,
+   materialisation yields exactly the bound content. *)
+Lemma failed_eval_changes_nothing_lemma : forall h a k, inv h ->
+  let h' := step h (OEvalFail a k) in
+  inv h' /\ h_objs h' = h_objs h /\ (forall x, icontent h' x = icontent h x) /\
+  forall c, a < nobjs h -> items_content (step h' (OForce a c)) a = icontent h a.
+Proof.
+  intros h a k Hinv h'.
+  destruct (step_refines_lemma h (OEvalFail a k) Hinv) as [(Hi & Hl & Hc) Ha]. fold h' in Hi, Hl, Hc, Ha.
+  cbn [pstep] in Ha.
+  assert (Hobjs : h_objs h' = h_objs h) by (unfold h'; cbn [step]; destruct (a <? nobjs h); reflexivity).
+  assert (Hall : forall x, icontent h' x = icontent h x).
+  { intros x. change (nth x (abs h') [] = nth x (abs h) []). rewrite Ha. reflexivity. }
+  split; auto. split; auto. split; auto.
+  intros c Ha'. cbn [step].
+  assert (Hn : nobjs h' = nobjs h) by (unfold nobjs; rewrite Hobjs; reflexivity).
+  destruct (eval_obj_good h' a c Hi) as ((Hi2 & _ & Hc2) & Hn2 & Hp2).
+  destruct (get_obj_some (eval_obj h' a c) a) as [ob Hob]; [lia|].
+  rewrite <- (present_views_agree _ _ _ Hi2 Hob (Hp2 _ Hob)). rewrite Hc2 by lia. apply Hall.
 Qed.
